@@ -3,9 +3,10 @@ import LzmaVerif.Model.Lzma2Writer
 import LzmaVerif.Generated.MfParams
 /-!
 `lzma2w.fast kind=<hc4|bt4> dict=<n> lc=<n> lp=<n> pb=<n> nice=<n> depth=<n> chunk=<n, 0 = none>
-             preset=<hex or -> data=<hex or -> [rep=<n>] [tail=<hex>] [chunks=1] [check=1]`
+             preset=<hex or -> data=<hex or -> [rep=<n>] [tail=<hex>] [parts=<n,n,…>] [chunks=1] [check=1]`
    runs the model of the LZMA2 writer in fast mode (`LzmaVerif/Model/Lzma2Writer.lean`) on the input
-   `data` repeated `rep` times (default 1) followed by `tail`, history `write(all); finish()`, and answers
+   `data` repeated `rep` times (default 1) followed by `tail`, history `write(part) …; finish()` (default: one
+   `write` call; the partition only matters with `chunk`), and answers
    `ok <number of bytes> <fnv of the bytes>` - the bytes the real `LZMA2Writer` must produce - or `err`
    (range-coder buffer overflow).  With `chunks=1` the answer is followed by the event list
    (`L<unc>/<comp>`, `S<len>`, `R`), with `check=1` by `check=<0|1>`: `checkChunks` accepts the model's chunk
@@ -36,9 +37,13 @@ def handleLzma2W (a : Args) : String :=
     let all := repeatList data rep tail
     let d := toU8 all
     let pre := toU8 preset
+    -- `parts=<n,n,…>`: the sizes of the `write` calls (what is left over goes into a last call, as in the
+    -- harness' `write_parts`); default: one call
+    let parts := (a.nats? "parts").getD [d.size]
+    let parts := parts ++ [d.size - parts.foldl (· + ·) 0]
     let evs :=
-      if kind == "hc4" then fastEvents (mkHc4 MfGen.hc4Params MfGen.fastParams o) MfGen.fastParams o pre d
-      else fastEvents (mkBt4 MfGen.bt4Params MfGen.fastParams o) MfGen.fastParams o pre d
+      if kind == "hc4" then fastEventsParts (mkHc4 MfGen.hc4Params MfGen.fastParams o) MfGen.fastParams o pre d parts
+      else fastEventsParts (mkBt4 MfGen.bt4Params MfGen.fastParams o) MfGen.fastParams o pre d parts
     match evs with
     | none => "err"
     | some evs =>
